@@ -5,6 +5,7 @@ Theorems about `Just.Eval` (model of src/evaluator.rs).
 import Just.Model.Eval
 import Just.Lemmas.EvalOnce
 import Just.Lemmas.Path
+import Just.Lemmas.Percent
 namespace Just.Props.C04
 open Just Just.Eval
 
@@ -639,5 +640,19 @@ example : fileName "/foo/bar.txt".toList = some "bar.txt".toList ∧ extensionOf
     extensionOf "foo.".toList = some [] ∧ parentStr "/".toList = none := by decide
 
 end Clean
+
+/-! ### `encode_uri_component` (model `Just.Percent` over the UTF-8 bytes) -/
+open Just.Percent in
+/-- **percent-encoding loses nothing and writes only harmless bytes**: decoding the encoded text
+gives back exactly the bytes of the argument, and every byte written is an ASCII letter or digit,
+one of `- _ . ! ~ * ' ( )`, a `%`, or a hexadecimal digit — for every byte string -/
+theorem encode_uri_component_roundtrip (bs : List Nat) (h : ∀ b ∈ bs, b < 256) :
+    decode (encode bs) = some bs ∧
+    ∀ c ∈ encode bs, isSafe c = true ∨ c = 37 ∨ (unhex c).isSome = true :=
+  ⟨decode_encode bs h, encode_output bs h⟩
+
+open Just.Percent in
+/-- non-vacuity: `a b/é` (bytes 97 32 98 47 195 169) becomes `a%20b%2F%C3%A9` -/
+example : encode [97, 32, 98, 47, 195, 169] = "a%20b%2F%C3%A9".toList.map Char.toNat := by decide
 
 end Just.Props.C04
